@@ -81,6 +81,10 @@ PROPS = {
     "C01": {
         "level": "proof",
         "units": ["nameparse", "labeliter", "sections", "optiter", "txtdata"],
+        "vx_search": {"bin": "c01_search_small_names", "crate": "replay", "release": True,
+                      "what": "16.4 million (octet string of at most 7 octets over 8 parser-relevant octets, offset) pairs: ParsedName::parse, "
+                              "label iteration both ways, flattening, as_flat_slice, compose_len, equality and Label::iter_slice on the real "
+                              "crate under a 10 s progress watchdog -- run only to find a concrete input for a failed Verus obligation"},
         "kani": [
             {"group": "g0", "name": "c01_header_getters_total", "kind": "complete", "tier": "quick",
              "what": "Message::from_slice + every Header/HeaderCounts/HeaderSection getter on every 12-octet header: no panic, "
@@ -90,6 +94,7 @@ PROPS = {
         ],
         "replays": [
             {"bin": "d34_txt_parse_empty_rdata", "finding": "D34"},
+            {"bin": "d43_iter_slice_pointer_cycle", "finding": "D43"},
             {"bin": "d1_iter_slice_self_pointer", "finding": "D1"},
             {"bin": "d2_canonical_name_ancount", "finding": "D2"},
         ],
@@ -100,7 +105,8 @@ PROPS = {
                        "uncompressed length <= 255), ParsedName::{skip, parser, iter, parent, as_flat_slice}, the *unchecked* "
                        "ParsedNameIter::{get_label, next, next_back} (panic!(\"bad label\"), index and `len -= ..` underflow "
                        "unreachable under the validity parse_ref establishes; validity preserved, so results can be iterated again), "
-                       "SliceLabelsIter::next (total on every slice and offset). Unit `sections`: QuestionSection::{next, answer}, "
+                       "SliceLabelsIter::next (total on every slice and offset, and the iteration as a whole is finite: every label handed out "
+                       "ends the iteration or strictly decreases the pair (offset pointers must stay below, octets left)). Unit `sections`: QuestionSection::{next, answer}, "
                        "RecordSection::{new, next, skip_next, next_section}, ParsedRecord::{new, parse, skip}, RecordHeader::{new, rdlen, "
                        "parse_ref, parse_rdlen}, Section::{first, count, next_section}: the parser never moves backwards or out of the "
                        "message, a record's RDATA window lies inside the message, each iterator yields at most `count` items and "
